@@ -325,6 +325,7 @@ pub fn run(ctx: &Ctx, rep: &mut Report) {
     }
     corner_sampler(ctx, rep, PID, 4, &mut r, 20_000, 400_000);
     super::c14::wrap_probe(ctx, rep, PID, crate::gen::pm(&[4]), &mut r);
+    super::c14::giant_buffer_probe(ctx, rep, PID, crate::gen::pm(&[4]), &mut r);
     rep.require("decoded");
     rep.sample(4, || {
         let b = &gen::BRANCHES[0];
